@@ -33,7 +33,7 @@ func init() {
 		Run:            run,
 		MinEvaluations: map[string]int{"quick": 300000, "thorough": 20000000},
 		MinNontrivial:  map[string]int{"quick": 3000, "thorough": 30000},
-		RequiredObs:    []string{"checkpoints_loaded_by_a_process_that_never_saved", "load_through_reader_kind_1", "load_through_reader_kind_2", "load_through_reader_kind_3", "load_through_reader_kind_4", "load_through_reader_kind_5", "load_through_reader_kind_6", "save_points_in_orders>=10(prefix of the output)", "failed_save_attempts", "saves_on_same_iterator", "save_points", "save_points_after_exhaustion", "save_points_before_first", "chains", "interleaved_steps", "configs_with_predicate"},
+		RequiredObs:    []string{"checkpoints_loaded_by_a_process_that_never_saved", "checkpoints_loaded_from_a_stream_holding_several", "load_through_reader_kind_1", "load_through_reader_kind_2", "load_through_reader_kind_3", "load_through_reader_kind_4", "load_through_reader_kind_5", "load_through_reader_kind_6", "save_points_in_orders>=10(prefix of the output)", "failed_save_attempts", "saves_on_same_iterator", "save_points", "save_points_after_exhaustion", "save_points_before_first", "chains", "interleaved_steps", "configs_with_predicate"},
 	})
 }
 
@@ -545,6 +545,9 @@ func run(c *engine.Ctx) {
 			})
 		}
 	}
+
+	// several checkpoints in one stream (streams.go)
+	streamUnits(c)
 
 	// n = 9 at seeded positions (thorough)
 	if c.Thorough() {
